@@ -9,6 +9,7 @@ import Driver.ClusterStream
 import Driver.RespStream
 import Driver.ClusterSysStream
 import Driver.TreeStream
+import Driver.RemoteStream
 /-
 hwdriver: reads
     stream <name>
@@ -37,6 +38,8 @@ def dispatch (stream : String) : Option (String → String → CaseOut) :=
   | "resp" => some respCase
   | "clustersys" => some clusterSysCase
   | "tree" => some treeCase
+  | "remote" => some remoteCase
+  | "remotelost" => some remoteLostCase
   | "childsched" => some childSchedCase
   | "provider" => some providerCase
   | "regsched" => some regSchedCase
